@@ -130,10 +130,10 @@ UNIT = Unit("rc4", ["base.rs"], [
                         ksa_from(rc4.state@, key@, i as int, j) == ksa_from(identity_perm(), key@, 0, 0),"""},
        hints=[(r"let mut j: u8 = 0;", 1, "proof { assert(rc4.state@ =~= identity_perm()); }", "before")],
        ensures=[("C16,C15", "ksa", "r.view() == ksa(key@)"), (None, "wf", "well_formed(r.view())")]),
-    Fn(RC4, "next", impl=r"Rc4", mod="rc4", props=["C16", "C07"],
+    Fn(RC4, "next", impl=r"Rc4", mod="rc4", props=["C16", "C15", "C01", "C07"],
        body_sub=[(r"self\.state\.swap\(self\.i as usize, self\.j as usize\)", "swap256(&mut self.state, self.i as usize, self.j as usize)")],
        requires=["well_formed(old(self).view())"],
-       ensures=[("C16", "prga", "final(self).view() == prga_step(old(self).view()).0 && r == prga_step(old(self).view()).1"), (None, "wf", "well_formed(final(self).view())")]),
+       ensures=[("C16,C15,C01", "prga", "final(self).view() == prga_step(old(self).view()).0 && r == prga_step(old(self).view()).1"), (None, "wf", "well_formed(final(self).view())")]),
     Fn(RC4, "process", impl=r"Rc4", mod="rc4", props=["C16", "C15", "C07"], nloops=1,
        body_sub=[(r"for \(x, y\) in input\.iter\(\)\.zip\(output\.iter_mut\(\)\) \{\s*\*y = \*x \^ self\.next\(\);\s*\}", "for k in 0..input.len() { output[k] = input[k] ^ self.next(); }")],
        requires=["well_formed(old(self).view())", "input@.len() == old(output)@.len()"],
